@@ -40,7 +40,17 @@ def run(F, R, tier):
     # --- R10-arms
     rule = "R10-arms"
     target = None
-    for n, st in walk_arms(body):
+    import sem
+    all_sites = list(sem.sem_walk(E, h))
+
+    def gated(site):
+        """the site is reached only where `*USE_AVX2` is known to be true"""
+        for atom, pol in sem.literals(site.pc)[0]:
+            nodes = [atom.node] if atom.node is not None else []
+            if pol and any((def_path(p_) or "").endswith("USE_AVX2") for n_ in nodes for p_ in exprs(n_, "Path")):
+                return True
+        return False
+    for n, st in all_sites:
         if n.get("k") == "Match" and n["scrut"].get("ty") == "usize" and arm_variants(st, "ComparisonOpExpr") == ["Contains"]:
             sc = strip(n["scrut"])
             if sc.get("k") == "MethodCall" and sc["m"] == "len" and local_name(sc["recv"]) in pat_names:
@@ -72,25 +82,14 @@ def run(F, R, tier):
                         "length %s: the searcher is anchored at `position`" % (k if k is not None else "other"), where=a["sp"])
         R.check(seen == set(range(2, 17)), rule, CMP, "array specialisations cover exactly lengths 2..=16", str(sorted(seen)), m["sp"])
         # gate: the match is inside `if *USE_AVX2`
-        gated = False
-        for ent in st:
-            if ent[0] == "if" and ent[2] is True:
-                iff = [i for i in exprs(body, "If") if id(i) == ent[1]][0]
-                c = strip(iff["cond"])
-                gated = gated or (def_path(c) or "").endswith("USE_AVX2") or any((def_path(p) or "").endswith("USE_AVX2") for p in exprs(iff["cond"], "Path"))
-        R.check(gated, "R10-gate", CMP, "AVX2 searchers are built only inside `if *USE_AVX2`",
+        R.check(gated(st), "R10-gate", CMP, "AVX2 searchers are built only inside `if *USE_AVX2`",
                 "calling the AVX2 search on a CPU without AVX2 is undefined behaviour", m["sp"])
     # every with_position / ArraySearcher / BoxSearcher construction anywhere is under the gate
     n_unsafe = 0
-    for n, st in walk_arms(body):
+    for n, st in all_sites:
         if n.get("k") == "Call" and last_seg(norm(n.get("callee", ""))) in ("with_position", "ArraySearcher", "BoxSearcher"):
             n_unsafe += 1
-            g = False
-            for ent in st:
-                if ent[0] == "if" and ent[2] is True:
-                    iff = [i for i in exprs(body, "If") if id(i) == ent[1]][0]
-                    g = g or any((def_path(p) or "").endswith("USE_AVX2") for p in exprs(iff["cond"], "Path"))
-            if not g:
+            if not gated(st):
                 R.violation("R10-gate", CMP, "%s outside the USE_AVX2 branch" % last_seg(norm(n["callee"])), where=n["sp"])
     R.floor("R10-gate", "AVX2 searcher constructions", n_unsafe, 32)
     # search_in only in the two Compare impls
